@@ -1,7 +1,7 @@
 import GlueVerif.Lemmas.C17Msgs
 /-!
 Helper lemmas for C17, part 5: from state-level facts about one call to `specStep` on the
-observations, and those facts for every call inside the hypothesis.
+observations, and those facts for every call (`messagesCore_exact`, `messages_exact`, `trace_ok`).
 -/
 namespace GlueVerif.Lemmas.C17
 open GlueVerif.DataStruct
@@ -17,6 +17,23 @@ theorem lookupComp_obs (probe : List Label) (s : State) (c : Cid) :
   simp only [lookupComp, obs_comps, List.find?_map]
   rfl
 
+theorem applyTo_noRepl {m : Msg} (h : ∀ o n, m ≠ .replaced o n) (k : Kind) : m.applyTo k = k := by
+  cases m <;> first | rfl | exact absurd rfl (h _ _)
+
+/-- Without a `ComponentReplaced` the class of a component is expected to stay. -/
+theorem kindAfter_noRepl : ∀ (ms : List Msg) (k : Kind), (∀ m ∈ ms, ∀ o n, m ≠ .replaced o n) → kindAfter ms k = k
+  | [], _, _ => rfl
+  | m :: ms, k, h => by
+    simp only [kindAfter, List.foldl_cons]
+    rw [applyTo_noRepl (h m List.mem_cons_self)]
+    exact kindAfter_noRepl ms k (fun m' hm' => h m' (List.mem_cons_of_mem _ hm'))
+
+theorem Eff.noRepl {old : Cid → Prop} {s s' : State} {ms : List Msg} (e : Eff old s s' ms) :
+    ∀ m ∈ ms, ∀ o n, m ≠ .replaced o n := by
+  intro m hm o n h
+  have := e.ar m hm
+  rw [h] at this; cases this
+
 /-- State-level facts about one successful call. -/
 structure Facts (s s' : State) (op : Op) (ms : List Msg) : Prop where
   hubOp : s'.hub = s.hub ∨ op.isHubOp = true
@@ -29,7 +46,7 @@ structure Facts (s s' : State) (op : Op) (ms : List Msg) : Prop where
   renamed : ∀ c, Msg.rename c ∈ ms → c ∈ cids s'.comps
   dlabel : s'.hub = true → ((s.dlabel != s'.dlabel) = ms.contains .update)
   values : ∀ x' ∈ s'.comps, ∀ x ∈ s.comps, x.cid = x'.cid → s'.hub = true →
-    (x.kind = x'.kind ∧ compShape s.shape x = compShape s'.shape x' ∧ oval x = oval x') ∨
+    (kindAfter ms x.kind = x'.kind ∧ compShape s.shape x = compShape s'.shape x' ∧ oval x = oval x') ∨
     numericalCovers ms x'.cid = true
   numOnly : ∀ m ∈ ms, numericalOk (cids s.comps) op m = true
   ext1 : s'.hub = true → s'.inDc = false → Msg.ext ∈ ms → s.linked ≠ s'.linked ∨ op.isLinkOp = true
@@ -191,7 +208,7 @@ theorem facts_of_eff {s s' : State} {op : Op} {ms : List Msg} (h : Inv s) (old :
     have hx'm : x' ∈ s.comps := k x' hx' (hold _ (hxc ▸ List.mem_map.2 ⟨x, hx, rfl⟩))
     have : x = x' := cid_inj h.nodup hx hx'm hxc
     subst this
-    refine ⟨rfl, ?_, rfl⟩
+    refine ⟨kindAfter_noRepl _ _ e.noRepl, ?_, rfl⟩
     rcases hshape with hs | hs
     · rw [hs]
     · rw [hs] at hx; cases hx
@@ -337,11 +354,10 @@ theorem facts_addMain_fresh {s : State} (h : Inv s) (op : Op) (l : Label) (shape
   by_cases he : s.comps = []
   · exact Or.inr he
   · left
-    have hns := inv_shape_ne h he
-    rw [addMain_shape (inv_fresh h l) _ _ _ (by rw [d]; exact hns), d]
+    rw [addMain_shape _ _ _ _ (by rw [d]; exact canAdd_nonempty h he hcan), d]
 
 theorem facts_addMain_at {s : State} (h : Inv s) (op : Op) (c : Cid) (hc : c < s.next) (hnew : c ∉ cids s.comps)
-    (shape : Shape) (val : Nat) (hop : ∀ a b, orderOk op a b = (b.filter a.contains == a.filter b.contains)) :
+    (shape : Shape) (val : Nat) (hcan : canAdd s shape = true) (hop : ∀ a b, orderOk op a b = (b.filter a.contains == a.filter b.contains)) :
     Facts s (addMain s c shape val).1 op (addMain s c shape val).2 := by
   have hW := W_of_inv h
   obtain ⟨e, k⟩ := eff_addMain (old := fun x => x < s.next ∧ x ≠ c) hW (fun _ hx => hx.1) c hnew hc
@@ -350,9 +366,9 @@ theorem facts_addMain_at {s : State} (h : Inv s) (op : Op) (c : Cid) (hc : c < s
   by_cases he : s.comps = []
   · exact Or.inr he
   · left
-    exact addMain_shape h _ _ _ (inv_shape_ne h he)
+    exact addMain_shape _ _ _ _ (canAdd_nonempty h he hcan)
 
-theorem facts_addRaw_fresh {s : State} (h : Inv s) (op : Op) (l : Label) (kind : Kind) (hne : s.comps ≠ [])
+theorem facts_addRaw_fresh {s : State} (h : Inv s) (op : Op) (l : Label) (kind : Kind) (hk : kind.isMain = false)
     (hop : ∀ a b, orderOk op a b = (b.filter a.contains == a.filter b.contains)) :
     Facts s (addRaw (fresh s l).1 ⟨(fresh s l).2, kind, [], 0⟩).1 op (addRaw (fresh s l).1 ⟨(fresh s l).2, kind, [], 0⟩).2 := by
   obtain ⟨a, _, _, d, _, _, _, hn, hcid, _⟩ := fresh_frame s l
@@ -363,7 +379,7 @@ theorem facts_addRaw_fresh {s : State} (h : Inv s) (op : Op) (l : Label) (kind :
   simp only [List.nil_append] at e
   apply facts_of_eff h _ (fun c hc => h.fresh.1 c hc) e (k0.trans k1) _ hop
   left
-  rw [addRaw_shape _ (by rw [d]; exact inv_shape_ne h hne), d]
+  rw [addRaw_shape _ (by cases kind <;> first | rfl | cases hk), d]
 
 theorem removeComp_eq_removeAll (s : State) (c : Cid) : removeComp s c = removeAll s [c] := by
   simp [removeAll, Res.bind]
@@ -381,7 +397,7 @@ theorem facts_setCoords {s : State} (h : Inv s) (v : Option Nat) :
     (Or.inl (frame_setCoords s v).1.shape) (fun _ _ => rfl)
 
 
-/-! ## the calls that are one step -/
+/-! ## the calls that are one stepCore -/
 
 /-- One message that is not about the identifier list, the table and everything else unchanged
 except what `hl` / `hd` / `hk` allow. -/
@@ -413,7 +429,13 @@ theorem facts_single {s s' : State} {op : Op} (m : Msg) (hm : Msg.isStructural m
   · have hh' : s'.hub = true := hh.trans hhub
     have nohub : s'.hub = false → False := fun h => by rw [hh'] at h; cases h
     simp only [if_true]
-    refine ⟨Or.inl hh, fun h => (nohub h).elim, ?_, ?_, ?_, ?_, ?_, hdl, hval, ?_, ?_, ?_⟩
+    have hk1 : ∀ k, kindAfter [m] k = k := fun k =>
+      kindAfter_noRepl [m] k (fun m' hm' o n e => by
+        simp only [List.mem_singleton] at hm'
+        subst hm'; subst e; cases hm)
+    refine ⟨Or.inl hh, fun h => (nohub h).elim, ?_, ?_, ?_, ?_, ?_, hdl,
+      (fun x' hx' x hx hxc hhb => (hval x' hx' x hx hxc hhb).imp (fun ⟨a, b, c⟩ => ⟨(hk1 _).trans a, b, c⟩) id),
+      ?_, ?_, ?_⟩
     · intro _
       rw [hc]
       cases m <;> simp [Msg.isStructural] at hm <;> simp [replay]
@@ -442,7 +464,7 @@ replaced in place and the change is announced as `NumericalDataChanged([id])`. -
 theorem facts_addMain_replace {s : State} (h : Inv s) (c : Cid) (hin : c ∈ cids s.comps)
     (hmain : ∀ x ∈ s.comps, x.cid = c → x.kind = .main) (shape : Shape) (val : Nat) (hshape : shape = s.shape) :
     Facts s (addMain s c shape val).1 (.addArrayAt c shape val) (addMain s c shape val).2 := by
-  rw [addMain_replace h hin]
+  rw [addMain_replace hin shape val hshape]
   have hf : ∀ x : Comp, (if x.cid == c then (⟨c, .main, shape, val⟩ : Comp) else x).cid = x.cid := by
     intro x
     by_cases hxc : x.cid = c
@@ -486,12 +508,22 @@ theorem label_cons_eq (s : State) (c : Cid) (l : Label) :
     State.label { s with labels := (c, l) :: s.labels } c = l := by
   simp [State.label, List.lookup_cons]
 
-theorem facts_rename {s : State} (h : Inv s) (c : Cid) (l : Label) (hc : c ∈ cids s.comps) :
-    Facts s (step s (.rename c l)).state (.rename c l) (step s (.rename c l)).msgs := by
-  simp only [step]
+/-- `ComponentID.label = l`: announced iff the identifier is a component of the dataset (F25); for any
+other identifier (one that was removed or re-assigned, or never used) only its label changes. -/
+theorem facts_rename {s : State} (h : Inv s) (c : Cid) (l : Label) :
+    Facts s (stepCore s (.rename c l)).state (.rename c l) (stepCore s (.rename c l)).msgs := by
+  simp only [stepCore]
   split
   · exact facts_silent h.nodup rfl rfl (fun _ _ => rfl) rfl (Or.inl rfl) (Or.inl rfl) (by simp [orderOk])
-  · rename_i hne
+  by_cases hc : c ∈ cids s.comps
+  case neg =>
+    have hcc : (cids s.comps).contains c = false := by simpa using hc
+    simp only [ok, hcc, Bool.false_and, Bool.false_eq_true, if_false]
+    refine facts_silent h.nodup rfl rfl ?_ rfl (Or.inl rfl) (Or.inl rfl) (by simp [orderOk])
+    intro c' hc'
+    exact label_cons_ne s c c' l (fun e => hc (e ▸ hc'))
+  case pos =>
+    rename_i hne
     have hne' : s.label c ≠ l := by simpa using hne
     simp only [ok]
     have hcc : (cids s.comps).contains c = true := by simpa using hc
@@ -534,8 +566,8 @@ theorem facts_setLabel {s : State} (h : Inv s) (l : Label) :
   · exact facts_silent h.nodup rfl rfl (fun _ _ => rfl) rfl (Or.inl rfl) (Or.inl rfl) (by simp [orderOk])
 
 theorem facts_setLinked {s : State} (h : Inv s) (cs : List Cid) :
-    Facts s (step s (.setLinked cs)).state (.setLinked cs) (step s (.setLinked cs)).msgs := by
-  simp only [step]
+    Facts s (stepCore s (.setLinked cs)).state (.setLinked cs) (stepCore s (.setLinked cs)).msgs := by
+  simp only [stepCore]
   split
   · exact facts_silent h.nodup rfl rfl (fun _ _ => rfl) rfl (Or.inl rfl) (Or.inl rfl) (by simp [orderOk])
   · simp only [ok]
@@ -598,16 +630,24 @@ theorem facts_one {s s' : State} {op : Op} (m : Msg) (hm : Msg.isStructural m = 
     (hord : orderOk op (cids s.comps) (cids s'.comps) = true)
     (hlab : ∀ c, s'.label c = s.label c) (hdl : s'.dlabel = s.dlabel) (hlk : s'.linked = s.linked)
     (hsh : s'.shape = s.shape)
-    (hval : ∀ x' ∈ s'.comps, ∀ x ∈ s.comps, x.cid = x'.cid → x = x') :
+    (hval : ∀ x' ∈ s'.comps, ∀ x ∈ s.comps, x.cid = x'.cid →
+      (x' = x ∧ ∀ o n, m ≠ .replaced o n) ∨ (∃ o n, m = .replaced o n ∧ x' = Comp.replaceDep o n x)) :
     Facts s s' op (if s.hub then [m] else []) := by
   have nr : ∀ c, Msg.rename c ≠ m := by intro c e; subst e; cases hm
   have nc : ∀ m', m' ≠ m → [m].contains m' = false := by intro m' h; simpa using h
   have vals : ∀ x' ∈ s'.comps, ∀ x ∈ s.comps, x.cid = x'.cid →
-      (x.kind = x'.kind ∧ compShape s.shape x = compShape s'.shape x' ∧ oval x = oval x') := by
+      (kindAfter [m] x.kind = x'.kind ∧ compShape s.shape x = compShape s'.shape x' ∧ oval x = oval x') := by
     intro x' hx' x hx hxc
-    have := hval x' hx' x hx hxc
-    subst this
-    exact ⟨rfl, by rw [hsh], rfl⟩
+    rcases hval x' hx' x hx hxc with ⟨rfl, hno⟩ | ⟨o, n, rfl, rfl⟩
+    · refine ⟨kindAfter_noRepl [m] _ ?_, by rw [hsh], rfl⟩
+      intro m' hm' o n e
+      simp only [List.mem_singleton] at hm'
+      subst hm'
+      exact hno o n e
+    · refine ⟨rfl, ?_, ?_⟩
+      · rw [hsh]
+        cases hk : x.kind <;> simp [compShape, Comp.replaceDep, Kind.replaceDep, hk]
+      · cases hk : x.kind <;> simp [oval, Comp.replaceDep, Kind.replaceDep, hk, Kind.isMain]
   by_cases hhub : s.hub = true
   · have hh' : s'.hub = true := hh.trans hhub
     have nohub : s'.hub = false → False := fun h => by rw [hh'] at h; cases h
@@ -686,7 +726,7 @@ theorem facts_reorder {s : State} (h : Inv s) (cs : List Cid) (he : (reorderImpl
         · rfl
         · rfl
         · intro x' hx' x hx hxc
-          exact cid_inj h.nodup hx (hmem x' hx') hxc
+          exact Or.inl ⟨(cid_inj h.nodup hx (hmem x' hx') hxc).symm, fun _ _ e => by cases e⟩
 
 theorem facts_updateId {s : State} (h : Inv s) (old new : Cid) (hnew : new ∉ cids s.comps) (hne : new ≠ old) :
     Facts s (updateIdImpl s old new).1 (.updateId old new) (updateIdImpl s old new).2 := by
@@ -714,20 +754,29 @@ theorem facts_updateId {s : State} (h : Inv s) (old new : Cid) (hnew : new ∉ c
       · rw [hinP hp] at hc; cases hc
     · simp
   simp only [updateIdImpl, hneb, Bool.false_eq_true, if_false, hcomps, hchg]
-  have hcids : cids (s.comps.map (ren old new)) = (cids s.comps).map (rho old new) := cids_map_ren _ _ _
-  have hval : ∀ x' ∈ s.comps.map (ren old new), ∀ x ∈ s.comps, x.cid = x'.cid → x = x' := by
+  have hcids : cids ((s.comps.map (ren old new)).map (Comp.replaceDep old new)) = (cids s.comps).map (rho old new) := by
+    rw [← cids_map_ren]
+    simp only [cids, List.map_map]
+    rfl
+  have hval : ∀ x' ∈ (s.comps.map (ren old new)).map (Comp.replaceDep old new), ∀ x ∈ s.comps, x.cid = x'.cid →
+      (x' = x ∧ ∀ o n, Msg.replaced old new ≠ .replaced o n) ∨
+      (∃ o n, Msg.replaced old new = .replaced o n ∧ x' = Comp.replaceDep o n x) := by
     intro x' hx' x hx hxc
-    obtain ⟨y, hy, rfl⟩ := List.mem_map.1 hx'
+    right
+    refine ⟨old, new, rfl, ?_⟩
+    obtain ⟨z, hz, rfl⟩ := List.mem_map.1 hx'
+    obtain ⟨y, hy, rfl⟩ := List.mem_map.1 hz
+    have hxc' : x.cid = (ren old new y).cid := hxc
     by_cases hyo : y.cid = old
     · exfalso
       have : (ren old new y).cid = new := by simp [ren, hyo]
-      rw [this] at hxc
-      exact hnew (hxc ▸ List.mem_map.2 ⟨x, hx, rfl⟩)
+      rw [this] at hxc'
+      exact hnew (hxc' ▸ List.mem_map.2 ⟨x, hx, rfl⟩)
     · have hyr : ren old new y = y := by
         have : (y.cid == old) = false := by simpa using hyo
         simp [ren, this]
-      rw [hyr] at hxc ⊢
-      exact cid_inj h.nodup hx hy hxc
+      rw [hyr] at hxc' ⊢
+      rw [cid_inj h.nodup hx hy hxc']
   have hord : orderOk (.updateId old new) (cids s.comps) ((cids s.comps).map (rho old new)) = true := by
     have : ((cids s.comps).map (rho old new) == (cids s.comps).map fun x => if x == old then new else x) = true := by
       rw [beq_iff_eq]
@@ -736,7 +785,7 @@ theorem facts_updateId {s : State} (h : Inv s) (old new : Cid) (hnew : new ∉ c
       rfl
     simp only [orderOk, this, Bool.true_or]
   by_cases hin : (cids s.comps).contains old = true
-  · simp only [hin, Bool.true_and]
+  · simp only [hin, Bool.true_and, if_true]
     have hrep : replay [Msg.replaced old new] (cids s.comps) = some ((cids s.comps).map (rho old new)) := by
       have hn' : (cids s.comps).contains new = false := by simpa using hnew
       simp only [replay, hin, hn', Bool.not_true, Bool.or_false, Bool.false_eq_true, if_false]
@@ -765,9 +814,9 @@ theorem facts_updateId {s : State} (h : Inv s) (old new : Cid) (hnew : new ∉ c
 
 /-- attach / detach / register / nop. -/
 theorem facts_hubops {s : State} (h : Inv s) (op : Op) (hop : op = .attach ∨ op = .detach ∨ op = .register ∨ op = .nop) :
-    Facts s (step s op).state op (step s op).msgs := by
+    Facts s (stepCore s op).state op (stepCore s op).msgs := by
   rcases hop with rfl | rfl | rfl | rfl
-  · simp only [step]
+  · simp only [stepCore]
     split
     · exact facts_silent h.nodup rfl rfl (fun _ _ => rfl) rfl (Or.inl rfl) (Or.inl rfl) (by simp [orderOk])
     · exact facts_silent h.nodup rfl rfl (fun _ _ => rfl) rfl (Or.inr rfl) (Or.inr rfl) (by simp [orderOk])
@@ -792,12 +841,11 @@ theorem addMain_next (s : State) (c : Cid) (shape : Shape) (val : Nat) : s.next 
   · simp [addRaw]
 
 theorem eff_addNewOnes {old : Cid → Prop} (shape : Shape) : ∀ (l : List (Label × Nat)) {s : State}, Inv s →
-    s.shape = shape → (l ≠ [] → shape ≠ []) → (∀ c, old c → c < s.next) →
+    s.shape = shape → (∀ c, old c → c < s.next) →
     Eff old s (addNewOnes s shape l).1 (addNewOnes s shape l).2.1 ∧ (addNewOnes s shape l).2.2 = none ∧
     s.next ≤ (addNewOnes s shape l).1.next
-  | [], s, _, _, _, _ => by simpa [addNewOnes] using Eff.refl old s
-  | (lab, v) :: rest, s, h, hs, hl, hb => by
-    have hne : shape ≠ [] := hl (by simp)
+  | [], s, _, _, _ => by simpa [addNewOnes] using Eff.refl old s
+  | (lab, v) :: rest, s, h, hs, hb => by
     have hcan : canAdd s shape = true := by simp [canAdd, hs]
     obtain ⟨a, _, _, d, _, _, _, hn, hcid, _⟩ := fresh_frame s lab
     have hb0 : ∀ c, old c → c < (fresh s lab).1.next := fun c hc => by rw [hn]; exact Nat.lt_succ_of_lt (hb c hc)
@@ -809,13 +857,12 @@ theorem eff_addNewOnes {old : Cid → Prop} (shape : Shape) : ∀ (l : List (Lab
       apply inv_addMain (inv_fresh h lab)
       · rw [hn, hcid]; exact Nat.lt_succ_self _
       · rw [a, hcid]; exact fresh_not_mem h
-      · exact hne
       · rw [canAdd_fresh]; exact hcan
     have hS : (addMain (fresh s lab).1 (fresh s lab).2 shape v).1.shape = shape := by
-      rw [addMain_shape (inv_fresh h lab) _ _ _ (by rw [d, hs]; exact hne), d, hs]
+      rw [addMain_shape _ _ _ _ (by rw [d, hs]), d, hs]
     have hb1 : ∀ c, old c → c < (addMain (fresh s lab).1 (fresh s lab).2 shape v).1.next := fun c hc =>
       Nat.lt_of_lt_of_le (hb0 c hc) (addMain_next _ _ _ _)
-    obtain ⟨e2, herr, hnx⟩ := eff_addNewOnes shape rest hI hS (fun _ => hne) hb1
+    obtain ⟨e2, herr, hnx⟩ := eff_addNewOnes shape rest hI hS hb1
     simp only [addNewOnes, hcan, Bool.not_true, Bool.false_eq_true, if_false]
     refine ⟨?_, herr, ?_⟩
     · have := (e0.trans e1).trans e2
@@ -981,7 +1028,7 @@ theorem facts_refresh_tail {s s5 s6 s7 : State} {m1 L m2 N : List Msg} {op : Op}
   · intro _ _ he; exact absurd he nx
   · intro _ _ hl; exact absurd lk7.symm hl
 
-theorem facts_updateFrom {s : State} (h : Inv s) (o : Other) (hns : o.comps ≠ [] → o.shape ≠ [])
+theorem facts_updateFrom {s : State} (h : Inv s) (o : Other)
     (he : (updateFromImpl s o).err = none) :
     Facts s (updateFromImpl s o).state (.updateFrom o) (updateFromImpl s o).msgs := by
   simp only [updateFromImpl] at he ⊢
@@ -994,7 +1041,7 @@ theorem facts_updateFrom {s : State} (h : Inv s) (o : Other) (hns : o.comps ≠ 
   rename_i hd2
   rw [if_neg hd2]
   obtain ⟨e13, w13, n13⟩ := ufStages_eff (old := fun c => c < s.next) (W_of_inv h) (fun _ hc => hc) o
-  obtain ⟨hI4, hsh⟩ := inv_ufRefreshed h o hns
+  obtain ⟨hI4, hsh⟩ := inv_ufRefreshed h o
   generalize hr3 : ufStages s o = r3 at e13 w13 n13 hI4 hsh he ⊢
   -- the refresh does not touch identifiers
   generalize hs4 : ({ r3.1 with comps := (applyRefresh r3.1
@@ -1013,21 +1060,9 @@ theorem facts_updateFrom {s : State} (h : Inv s) (o : Other) (hns : o.comps ≠ 
   have hs4s : s4.shape = o.shape := by rw [← hs4]; exact hsh
   obtain ⟨e5, herr5, hn5⟩ := eff_addNewOnes (old := fun c => c < s.next) o.shape
     (o.comps.filter fun p => !((nonCoord s).map (fun c => s.label c.cid)).contains p.1) hI4 hs4s
-    (by
-      intro hne
-      apply hns
-      intro hoc
-      rw [hoc] at hne
-      exact hne rfl)
     (fun c hc => by rw [hs4n]; exact Nat.lt_of_lt_of_le hc n13)
   have hI5 := inv_addNewOnes o.shape
     (o.comps.filter fun p => !((nonCoord s).map (fun c => s.label c.cid)).contains p.1) hI4 hs4s
-    (by
-      intro hne
-      apply hns
-      intro hoc
-      rw [hoc] at hne
-      exact hne rfl)
   generalize hr5 : addNewOnes s4 o.shape
     (o.comps.filter fun p => !((nonCoord s).map (fun c => s.label c.cid)).contains p.1) = r5 at e5 herr5 hn5 hI5 he ⊢
   rw [herr5] at he ⊢
@@ -1112,17 +1147,17 @@ theorem obs_fresh (probe : List Label) {s : State} (h : Inv s) (l : Label) :
       · exact h.fresh.2 c hc
     exact hlab c hlt
 
-theorem step_err (probe : List Label) {s : State} {op : Op} (h : Inv s) (hns : classify s op = .ok) {e : Err}
-    (he : (step s op).err = some e) :
-    obs probe (step s op).state = obs probe s ∧ (step s op).msgs = [] := by
+theorem step_err (probe : List Label) {s : State} {op : Op} (h : Inv s) {e : Err}
+    (he : (stepCore s op).err = some e) :
+    obs probe (stepCore s op).state = obs probe s ∧ (stepCore s op).msgs = [] := by
   cases op with
   | addArray l shape val =>
-    simp only [step] at he ⊢
+    simp only [stepCore] at he ⊢
     split at he
     · rename_i hc; rw [if_pos hc]; exact ⟨rfl, rfl⟩
     · cases he
   | addArrayAt c shape val =>
-    simp only [step] at he ⊢
+    simp only [stepCore] at he ⊢
     split at he
     · rename_i hc; rw [if_pos hc]; exact ⟨rfl, rfl⟩
     · rename_i hc
@@ -1131,7 +1166,7 @@ theorem step_err (probe : List Label) {s : State} {op : Op} (h : Inv s) (hns : c
       · rename_i hc2; rw [if_pos hc2]; exact ⟨rfl, rfl⟩
       · cases he
   | addDerived v l deps =>
-    simp only [step, addDerivedImpl] at he ⊢
+    simp only [stepCore, addDerivedImpl] at he ⊢
     split at he
     · rename_i hv
       rw [if_pos hv]
@@ -1148,12 +1183,12 @@ theorem step_err (probe : List Label) {s : State} {op : Op} (h : Inv s) (hns : c
       · rename_i hem; rw [if_pos hem]; exact ⟨rfl, rfl⟩
       · cases he
   | remove c =>
-    simp only [step] at he ⊢
+    simp only [stepCore] at he ⊢
     split at he
     · rename_i hc; rw [if_pos hc]; exact ⟨rfl, rfl⟩
     · cases he
   | reorder cs =>
-    simp only [step, reorderImpl] at he ⊢
+    simp only [stepCore, reorderImpl] at he ⊢
     split at he
     · rename_i hc; rw [if_pos hc]; exact ⟨rfl, rfl⟩
     · rename_i hc
@@ -1162,68 +1197,56 @@ theorem step_err (probe : List Label) {s : State} {op : Op} (h : Inv s) (hns : c
       · rename_i hc2; rw [if_pos hc2]; exact ⟨rfl, rfl⟩
       · split at he <;> cases he
   | updateId old new =>
-    simp only [step] at he ⊢
+    simp only [stepCore] at he ⊢
     split at he
     · rename_i hc; rw [if_pos hc]; exact ⟨rfl, rfl⟩
     · cases he
   | updateComponents m =>
-    simp only [step, updateComponentsImpl] at he ⊢
+    simp only [stepCore, updateComponentsImpl] at he ⊢
     split at he
     · exact ⟨rfl, rfl⟩
     · cases he
   | updateFrom o =>
-    have hne : o.comps ≠ [] → o.shape ≠ [] := by
-      obtain ⟨_, hargs⟩ := classify_ok hns
-      intro hne hs
-      simp only [classifyArgs] at hargs
-      have : o.comps.isEmpty = false := by simpa using hne
-      simp [hs, this] at hargs
     by_cases hd1 : (!decide ((nonCoord s).map (fun c => s.label c.cid)).Nodup) = true
-    · simp only [step, updateFromImpl, hd1, if_true]; exact ⟨rfl, rfl⟩
+    · simp only [stepCore, updateFromImpl, hd1, if_true]; exact ⟨rfl, rfl⟩
     · by_cases hd2 : (!decide (o.comps.map (·.1)).Nodup) = true
-      · simp only [step, updateFromImpl, hd1, hd2, if_true, if_false]
+      · simp only [stepCore, updateFromImpl, hd1, hd2, if_true, if_false]
         exact ⟨rfl, rfl⟩
       · exfalso
         -- no other failure is possible
-        simp only [step, updateFromImpl, hd1, hd2, if_false] at he
-        obtain ⟨hI4, hsh⟩ := inv_ufRefreshed h o hne
+        simp only [stepCore, updateFromImpl, hd1, hd2, if_false] at he
+        obtain ⟨hI4, hsh⟩ := inv_ufRefreshed h o
         obtain ⟨_, herr5, _⟩ := eff_addNewOnes (old := fun c => c < s.next) o.shape
           (o.comps.filter fun p => !((nonCoord s).map (fun c => s.label c.cid)).contains p.1) hI4 hsh
-          (by
-            intro hne'
-            apply hne
-            intro hoc
-            rw [hoc] at hne'
-            exact hne' rfl)
           (fun c hc => by
             have := (ufStages_eff (old := fun c => c < s.next) (W_of_inv h) (fun _ hc => hc) o).2.2
             exact Nat.lt_of_lt_of_le hc this)
         rw [herr5] at he
         cases he
-  | setCoords v => simp [step, ok] at he
+  | setCoords v => simp [stepCore, ok] at he
   | rename c l =>
-    simp only [step] at he
+    simp only [stepCore] at he
     split at he <;> cases he
-  | setLabel l => simp [step, ok] at he
+  | setLabel l => simp [stepCore, ok] at he
   | attach =>
-    simp only [step] at he
+    simp only [stepCore] at he
     split at he <;> cases he
-  | detach => simp [step, ok] at he
-  | register => simp [step, ok] at he
+  | detach => simp [stepCore, ok] at he
+  | register => simp [stepCore, ok] at he
   | setLinked cs =>
-    simp only [step] at he
+    simp only [stepCore] at he
     split at he <;> cases he
-  | nop => simp [step, ok] at he
+  | nop => simp [stepCore, ok] at he
 
 
-/-! ## every successful call inside the hypothesis -/
+/-! ## every successful call -/
 
-theorem step_facts {s : State} {op : Op} (h : Inv s) (hc : classify s op = .ok) (he : (step s op).err = none) :
-    Facts s (step s op).state op (step s op).msgs := by
-  obtain ⟨hids, hargs⟩ := classify_ok hc
+theorem step_facts {s : State} {op : Op} (h : Inv s) (hids : ∀ c ∈ op.ids, c < s.next)
+    (he : (stepCore s op).err = none) :
+    Facts s (stepCore s op).state op (stepCore s op).msgs := by
   cases op with
   | addArray l shape val =>
-    simp only [step] at he ⊢
+    simp only [stepCore] at he ⊢
     split at he
     · cases he
     · rename_i hcan
@@ -1231,7 +1254,7 @@ theorem step_facts {s : State} {op : Op} (h : Inv s) (hc : classify s op = .ok) 
       simp only [ok]
       exact facts_addMain_fresh h _ l shape val (by simpa using hcan) (fun _ _ => rfl)
   | addArrayAt c shape val =>
-    simp only [step] at he ⊢
+    simp only [stepCore] at he ⊢
     split at he
     · cases he
     · rename_i hkind
@@ -1251,9 +1274,9 @@ theorem step_facts {s : State} {op : Op} (h : Inv s) (hc : classify s op = .ok) 
             have := hkind x hx hxc
             cases hk : x.kind <;> simp_all [Kind.isMain]
           exact facts_addMain_replace h c hin hmain shape val (canAdd_nonempty h hne (by simpa using hcan))
-        · exact facts_addMain_at h _ c (hids c (by simp [Op.ids])) hin shape val (fun _ _ => rfl)
+        · exact facts_addMain_at h _ c (hids c (by simp [Op.ids])) hin shape val (by simpa using hcan) (fun _ _ => rfl)
   | addDerived v l deps =>
-    simp only [step, addDerivedImpl] at he ⊢
+    simp only [stepCore, addDerivedImpl] at he ⊢
     split at he
     · rename_i hv
       rw [if_pos hv]
@@ -1266,7 +1289,7 @@ theorem step_facts {s : State} {op : Op} (h : Inv s) (hc : classify s op = .ok) 
         · rename_i hem
           rw [if_neg hem]
           simp only [ok]
-          exact facts_addRaw_fresh h _ l (.derived deps) (by simpa [fresh] using hem) (fun _ _ => rfl)
+          exact facts_addRaw_fresh h _ l (.derived deps) rfl (fun _ _ => rfl)
     · rename_i hv
       rw [if_neg hv]
       split at he
@@ -1274,9 +1297,9 @@ theorem step_facts {s : State} {op : Op} (h : Inv s) (hc : classify s op = .ok) 
       · rename_i hem
         rw [if_neg hem]
         simp only [ok]
-        exact facts_addRaw_fresh h _ l (.derived deps) (by simpa using hem) (fun _ _ => rfl)
+        exact facts_addRaw_fresh h _ l (.derived deps) rfl (fun _ _ => rfl)
   | remove c =>
-    simp only [step] at he ⊢
+    simp only [stepCore] at he ⊢
     split at he
     · cases he
     · rename_i hco
@@ -1284,7 +1307,7 @@ theorem step_facts {s : State} {op : Op} (h : Inv s) (hc : classify s op = .ok) 
       exact facts_remove h c
   | reorder cs => exact facts_reorder h cs he
   | updateId old new =>
-    simp only [step] at he ⊢
+    simp only [stepCore] at he ⊢
     split at he
     · cases he
     · rename_i hnew
@@ -1298,24 +1321,14 @@ theorem step_facts {s : State} {op : Op} (h : Inv s) (hc : classify s op = .ok) 
         simp only [hne, Bool.true_and, Bool.not_eq_true] at hnew
         exact facts_updateId h old new (by simpa using hnew) heq
   | updateComponents m =>
-    simp only [step, updateComponentsImpl] at he ⊢
+    simp only [stepCore, updateComponentsImpl] at he ⊢
     split at he
     · cases he
     · rename_i hchk
       exact facts_updateComponents h m hchk
-  | updateFrom o =>
-    apply facts_updateFrom h o _ he
-    intro hne hs
-    simp only [classifyArgs] at hargs
-    have : o.comps.isEmpty = false := by simpa using hne
-    simp [hs, this] at hargs
+  | updateFrom o => exact facts_updateFrom h o he
   | setCoords v => exact facts_setCoords h v
-  | rename c l =>
-    apply facts_rename h c l
-    simp only [classifyArgs] at hargs
-    split at hargs
-    · rename_i hcc; simpa using hcc
-    · cases hargs
+  | rename c l => exact facts_rename h c l
   | setLabel l => exact facts_setLabel h l
   | attach => exact facts_hubops h _ (Or.inl rfl)
   | detach => exact facts_hubops h _ (Or.inr (Or.inl rfl))
@@ -1323,22 +1336,31 @@ theorem step_facts {s : State} {op : Op} (h : Inv s) (hc : classify s op = .ok) 
   | setLinked cs => exact facts_setLinked h cs
   | nop => exact facts_hubops h _ (Or.inr (Or.inr (Or.inr rfl)))
 
-/-- Each call inside the hypothesis emits exactly the messages that explain what it changed; a
-failed call changes and announces nothing. -/
-theorem messages_exact (probe : List Label) {s : State} {op : Op} (h : Inv s) (hc : classify s op = .ok) :
-    specStep (obs probe s) op (obs probe (step s op).state) (step s op).msgs (step s op).err = true := by
-  cases he : (step s op).err with
-  | none => exact specStep_of_facts probe (step_facts h hc he)
+/-- Each call whose arguments are known objects emits exactly the messages that explain what it
+changed; a failed call changes and announces nothing. -/
+theorem messagesCore_exact (probe : List Label) {s : State} {op : Op} (h : Inv s) (hids : ∀ c ∈ op.ids, c < s.next) :
+    specStep (obs probe s) op (obs probe (stepCore s op).state) (stepCore s op).msgs (stepCore s op).err = true := by
+  cases he : (stepCore s op).err with
+  | none => exact specStep_of_facts probe (step_facts h hids he)
   | some e =>
-    obtain ⟨h1, h2⟩ := step_err probe h hc he
+    obtain ⟨h1, h2⟩ := step_err probe h he
     simp [specStep, h1, h2]
 
-theorem trace_ok (probe : List Label) : ∀ (ops : List Op) {s : State}, Inv s → allOk s ops = true →
+/-- Accounting for ComponentID objects the model has not seen yet is invisible. -/
+theorem obs_alloc (probe : List Label) (s : State) (op : Op) : obs probe (alloc s op) = obs probe s := rfl
+
+/-- **Each call emits exactly the messages that explain what it changed.** -/
+theorem messages_exact (probe : List Label) {s : State} {op : Op} (h : Inv s) :
+    specStep (obs probe s) op (obs probe (step s op).state) (step s op).msgs (step s op).err = true := by
+  have := messagesCore_exact probe (inv_alloc h op) (alloc_ids s op)
+  rw [obs_alloc] at this
+  exact this
+
+theorem trace_ok (probe : List Label) : ∀ (ops : List Op) {s : State}, Inv s →
     specTrace (obs probe s) (trace probe s ops) = true
-  | [], s, h, _ => by simpa [trace, specTrace] using inv_specInv probe s h
-  | op :: ops, s, h, hok => by
-    simp only [allOk, Bool.and_eq_true, beq_iff_eq] at hok
+  | [], s, h => by simpa [trace, specTrace] using inv_specInv probe s h
+  | op :: ops, s, h => by
     simp only [trace, specTrace, Bool.and_eq_true]
-    exact ⟨⟨inv_specInv probe s h, messages_exact probe h hok.1⟩, trace_ok probe ops (step_inv h hok.1) hok.2⟩
+    exact ⟨⟨inv_specInv probe s h, messages_exact probe h⟩, trace_ok probe ops (step_inv h)⟩
 
 end GlueVerif.Lemmas.C17
